@@ -68,6 +68,7 @@ Definition gen_facts_pinned : bool :=
 
 Definition x_normal_normalise (cs : list (chunk line)) := normal_normalise cs.
 Definition x_unified_normalise (cs : list (chunk line)) := unified_normalise cs.
-Definition x_apply_normal (l : list line) (t : bytes) := apply_normal l (split_lines t).
-Definition x_apply_unified (l : list line) (t : bytes) := apply_unified l (split_lines t).
-Definition x_apply_context (l : list line) (t : bytes) := apply_context l (split_lines t).
+(* [strict = true]: the appliers of the theorems; [false]: the right-hand numbers are not checked *)
+Definition x_apply_normal (strict : bool) (l : list line) (t : bytes) := apply_normal_gen strict l (split_lines t).
+Definition x_apply_unified (strict : bool) (l : list line) (t : bytes) := apply_unified_gen strict l (split_lines t).
+Definition x_apply_context (strict : bool) (l : list line) (t : bytes) := apply_context_gen strict l (split_lines t).
